@@ -13,6 +13,8 @@ import (
 	"sync/atomic"
 	"syscall"
 	"time"
+
+	"github.com/whawty/auth/sasl"
 )
 
 func mkHooksDir(root string) string {
@@ -107,6 +109,7 @@ func runC10(em *vEmitter, r *vRng) {
 	// reloads: the agent keeps answering after any number of SIGHUPs (successful and failed ones), with
 	// and without a hooks directory
 	c10Reloads(em, r)
+	c10FdExhaustion(em, r)
 	// a backlog of logins that takes the dispatcher many seconds to work off (expensive hashes): every
 	// one of them is answered, and the agent answers other requests afterwards
 	c10SlowBurst(em, r)
@@ -386,4 +389,116 @@ func c10Reloads(em *vEmitter, r *vRng) {
 		}
 		em.emit(c)
 	}
+}
+
+// The process runs out of file descriptors for a moment (a burst of connections on any frontend, many
+// hook processes, a low ulimit) while saslauthd clients keep connecting: accept(2) fails with EMFILE.
+// When descriptors are available again every frontend must serve as before - the listener loops must
+// not have lost anything (a slot, a goroutine, the listener itself) on the failed accepts.
+func c10FdExhaustion(em *vEmitter, r *vRng) {
+	ms := mNewStore("c10fd", r, 1)
+	ms.plant("root", true, 1, 1600000000, r.bytes(16), []byte("rootpw"), "")
+	st, err := NewStore(ms.cfgfile, "", "", "", "")
+	if err != nil {
+		panic(err)
+	}
+	api := st.GetInterface()
+	sock := filepath.Join(ms.root, "sasl.sock")
+	go runSaslAuthSocket(sock, api)
+	for i := 0; i < 100; i++ {
+		if _, err := os.Stat(sock); err == nil {
+			break
+		}
+		time.Sleep(10 * time.Millisecond)
+	}
+	ask := func(pw string) (ok bool, answered bool) {
+		type res struct{ ok bool }
+		ch := make(chan res, 1)
+		go func() {
+			ok, _, err := sasl.NewClient(sock).Auth("root", pw, "svc", "")
+			ch <- res{ok && err == nil}
+		}()
+		select {
+		case x := <-ch:
+			return x.ok, true
+		case <-time.After(8 * time.Second):
+			return false, false
+		}
+	}
+	viol := ""
+	if ok, ans := ask("rootpw"); !ans || !ok {
+		viol = "saslauthd socket does not answer before the test starts"
+	}
+	rounds, failedDials := 0, 0
+	var lim syscall.Rlimit
+	syscall.Getrlimit(syscall.RLIMIT_NOFILE, &lim)
+	for round := 0; round < 3 && viol == ""; round++ {
+		rounds++
+		// use up the descriptors: lower the soft limit to just above what is open now, fill the rest
+		ents, _ := os.ReadDir("/proc/self/fd")
+		low := lim
+		low.Cur = uint64(len(ents) + 40)
+		if low.Cur > lim.Cur {
+			low.Cur = lim.Cur
+		}
+		syscall.Setrlimit(syscall.RLIMIT_NOFILE, &low)
+		var hold []*os.File
+		for {
+			f, err := os.Open("/dev/null")
+			if err != nil {
+				break
+			}
+			hold = append(hold, f)
+		}
+		// clients connect while nothing is left: each one needs a descriptor of ours, give back one at a time
+		var conns []net.Conn
+		for k := 0; k < 3 && len(hold) > 0; k++ {
+			hold[len(hold)-1].Close()
+			hold = hold[:len(hold)-1]
+			c, err := net.Dial("unix", sock)
+			if err != nil {
+				failedDials++
+				continue
+			}
+			conns = append(conns, c)
+		}
+		time.Sleep(300 * time.Millisecond) // the accept loop meets EMFILE for a while
+		for _, f := range hold {
+			f.Close()
+		}
+		syscall.Setrlimit(syscall.RLIMIT_NOFILE, &lim)
+		for _, c := range conns {
+			c.Close()
+		}
+		time.Sleep(50 * time.Millisecond)
+		for i := 0; i < 6 && viol == ""; i++ {
+			pw := []string{"rootpw", "wrong"}[i%2]
+			ok, ans := ask(pw)
+			if !ans {
+				viol = fmt.Sprintf("after the process had run out of file descriptors for 300 ms (round %d, accept on the saslauthd socket failing with EMFILE) "+
+					"a saslauthd request is not answered within 8 s: the socket no longer serves", round+1)
+			} else if ok != (pw == "rootpw") {
+				viol = fmt.Sprintf("after descriptor exhaustion the saslauthd socket answers %v for password %q", ok, pw)
+			}
+		}
+		// and the agent itself still answers
+		done := make(chan struct{})
+		go func() { api.Authenticate("root", "rootpw"); api.List(); close(done) }()
+		select {
+		case <-done:
+		case <-time.After(8 * time.Second):
+			if viol == "" {
+				viol = "after descriptor exhaustion the agent's dispatcher does not answer within 8 s"
+			}
+		}
+	}
+	syscall.Setrlimit(syscall.RLIMIT_NOFILE, &lim)
+	c := vCase{Prop: "C10", Kind: "load", Class: "env/fd-exhaustion", Nontrivial: true,
+		Human: map[string]interface{}{"rounds": rounds, "dials_refused_for_lack_of_descriptors": failedDials}}
+	if viol != "" {
+		c.Violation = viol
+	} else {
+		ms.cleanup()
+	}
+	em.emit(c)
 }
